@@ -60,6 +60,11 @@ pub open spec fn rc_sink_hit<'a, N>(g: DiGraph<N, Edge<'a>>, start: NodeIndex, c
     &&& rc_reach(g, check, start, cg_src(g, e))
 }
 
+/// "a call to the use function is reachable from `start` ... without passing another call to the check function"
+pub open spec fn rc_sink_reachable<'a, N>(g: DiGraph<N, Edge<'a>>, start: NodeIndex, check: Tid, use_: Tid) -> bool {
+    exists |e: int| #[trigger] rc_sink_hit(g, start, check, use_, e)
+}
+
 /// the tid of the jump term of an ExternCallStub edge
 pub open spec fn rc_edge_tid<'a, N>(g: DiGraph<N, Edge<'a>>, e: int) -> Tid {
     rc_stub_jmp(g.edge_weight(e))->Some_0.tid
@@ -68,7 +73,7 @@ pub open spec fn rc_edge_tid<'a, N>(g: DiGraph<N, Edge<'a>>, e: int) -> Tid {
 /// THE POSTCONDITION of is_sink_call_reachable_from_source_call: the answer is `Some` exactly when a reachable call to the
 /// use function exists, and then it carries the tid of the jump of SOME such call (which one: iteration order of petgraph).
 pub open spec fn rc_answer_ok<'a, N>(g: DiGraph<N, Edge<'a>>, start: NodeIndex, check: Tid, use_: Tid, r: Option<Tid>) -> bool {
-    &&& r is Some <==> exists |e: int| #[trigger] rc_sink_hit(g, start, check, use_, e)
+    &&& r is Some <==> rc_sink_reachable(g, start, check, use_)
     &&& r is Some ==> exists |e: int| #[trigger] rc_sink_hit(g, start, check, use_, e) && r->Some_0 == rc_edge_tid(g, e)
 }
 
